@@ -676,6 +676,12 @@ fn other_addr(sim: &Sim, own: u16) -> u16 {
 // -------------------------------------------------------------- the run ----
 
 pub fn run(sim: &Sim, prop: &str, tier: Tier) -> Outcome {
+    // nothing of an earlier run of this worker may steer this one (an earlier run may have been
+    // unwound out of a handler, leaving the re-entrance depth raised)
+    DEPTH.with(|d| d.set(0));
+    CHAIN.with(|c| *c.borrow_mut() = None);
+    REG.with(|r| *r.borrow_mut() = None);
+    ZCTX.with(|c| *c.borrow_mut() = None);
     if prop == "C18" {
         return run_exchange(sim, prop, tier);
     }
